@@ -65,7 +65,11 @@ func deserCheck(args []string) error {
 			dst = pj
 			it := pj.Iter()
 			got, err := it.MarshalJSON()
-			if err != nil || !bytes.Equal(got, want) {
+			if len(want) == 1 && want[0] == 0 { // the asm build could not marshal it either (non-finite float)
+				if err == nil {
+					rep.Add(run.Mismatch{Property: *prop, Sig: "noasm-doc:nonfinite", Want: "a marshal error as in the asm build", Got: string(got)})
+				}
+			} else if err != nil || !bytes.Equal(got, want) {
 				rep.Add(run.Mismatch{Property: *prop, Sig: "noasm-doc:" + string(want), Text: string(want), Want: string(want), Got: fmt.Sprintf("%s err=%v", got, err)})
 			}
 			if bytes.ContainsAny(want, ",") {
